@@ -91,9 +91,10 @@ class GraphBasedModelConstructor:
                 self.intron_genes[intron].add(gene_id)
 
         for intron in intron_strands_dicts.keys():
-            if len(intron_strands_dicts[intron].keys()) == 1:
-                # intron has a single strand
-                self.strand_detector.set_strand(intron, list(intron_strands_dicts[intron].keys())[0])
+            annotated_strands = list(intron_strands_dicts[intron].keys())
+            if len(annotated_strands) == 1 and annotated_strands[0] in ['+', '-']:
+                # intron has a single strand (an annotation without a strand says nothing, the reference decides)
+                self.strand_detector.set_strand(intron, annotated_strands[0])
             else:
                 self.strand_detector.set_strand(intron)
 
